@@ -184,6 +184,50 @@ def c07_hypotheses(x):
     return True
 
 
+def schema_mutations(j, rng):
+    """a few documents one edit away from j: a key removed, an integer / boolean / array / object replaced by a value of
+    another JSON type, an enum literal replaced (string payloads that the token grammar interprets are left alone)"""
+    import copy
+    out = []
+    def paths(x, p, acc):
+        if isinstance(x, dict):
+            for k, v in x.items():
+                acc.append((p, k)); paths(v, p + (k,), acc)
+        elif isinstance(x, list):
+            for i, v in enumerate(x[:4]):
+                paths(v, p + (i,), acc)
+        return acc
+    allp = paths(j, (), [])
+    for _ in range(3):
+        if not allp:
+            break
+        p, k = rng.choice(allp)
+        m = copy.deepcopy(j)
+        node = m
+        for step in p:
+            node = node[step]
+        v = node[k]
+        choice = rng.randrange(3)
+        if choice == 0 or k in ('string', 'bytes', 'int', 'float', 'name'):
+            del node[k]
+        elif isinstance(v, bool):
+            node[k] = 1
+        elif isinstance(v, int):
+            node[k] = 'x'
+        elif isinstance(v, list):
+            node[k] = {}
+        elif isinstance(v, dict):
+            node[k] = []
+        elif isinstance(v, str) and k == 'type':
+            node[k] = 'NOPE'
+        elif k == 'name':
+            del node[k]
+        else:
+            node[k] = 5
+        out.append(m)
+    return out
+
+
 def c07_data(w, inp, x, can_encode):
     w.stats['documents'] += 1
     hyp, e0 = try_(c07_hypotheses, x)
@@ -205,6 +249,14 @@ def c07_data(w, inp, x, can_encode):
     r = validate(j, JSON_SCHEMA, JSON_SCHEMA)
     if r:
         w.violation('C07:schema-invalid', inp, {'where': r})
+    # Spec tie for the schema layer: the model's executable validator (proved sound for the validity relation the
+    # theorem is about) against this independent validator, on the document and on a few invalid mutations of it
+    if w.stats['documents'] % 7 == 1 and len(text) < 40000:
+        w.op('S', 'schemavalid ' + ser.s_json(j), 'OK ' + ('false' if r else 'true'))
+        mrng = random.Random(len(text) ^ w.seed)
+        for m in schema_mutations(j, mrng):
+            w.stats['schema_mutations'] += 1
+            w.op('S', 'schemavalid ' + ser.s_json(m), 'OK ' + ('false' if validate(m, JSON_SCHEMA, JSON_SCHEMA) else 'true'))
     j2 = json.loads(text)
     j2_tokens = ser.s_json(j2)
     y, e = try_(CodeData.from_json_data, j2)
